@@ -371,6 +371,167 @@ def run_readers(ck):
                        "schedule": res.get("choices")})
 
 
+def scenario_readers_traced(s, n_readers, calls, timeout, bursts):
+    """H3 with trace acceptance: several threads call the BLOCKING get_next_signal on one receiver (each `calls` times)
+    while the main thread delivers bursts of signals.  The receiver's deque is replaced by a logging subclass: every
+    len / append / popleft (all of them happen under the receiver's condition variable) is logged with the calling
+    thread, which gives the labels of theories/C09/Blocking.v.  bursts = [(virtual time, count), ...]."""
+    import threading as real_threading
+    import collections
+    import dsched
+    from common import poke
+    from qmi.core.pubsub import QMI_SignalReceiver, QMI_SignalMessage
+    from qmi.core.messaging import QMI_MessageHandlerAddress as Addr
+    from qmi.core.exceptions import QMI_TimeoutException
+    r = QMI_SignalReceiver(64)
+    ev = []
+    who = {}
+
+    def me():
+        return who.get(real_threading.get_ident(), -1)
+
+    class LogDeque(collections.deque):
+        def __len__(self):
+            n = collections.deque.__len__(self)
+            ev.append(("L", me(), n))
+            return n
+
+        def append(self, x):
+            ev.append(("A", me(), x.args[0]))
+            return collections.deque.append(self, x)
+
+        def popleft(self):
+            x = collections.deque.popleft(self)
+            ev.append(("D", me(), x.args[0], x.receiver_seqnr))
+            return x
+    old = r._queue
+    poke(r, "_queue", LogDeque(old, maxlen=old.maxlen))
+    results = {}
+    obs = {"events": ev, "results": results}
+    s.obs = obs
+
+    def reader(k):
+        for c in range(calls):
+            rid = k * 10 + c
+            who[real_threading.get_ident()] = rid
+            ev.append(("C", rid))
+            try:
+                sig = r.get_next_signal(timeout)
+                results[rid] = ("sig", sig.args[0], sig.receiver_seqnr)
+            except QMI_TimeoutException:
+                results[rid] = ("timeout",)
+    ths = [real_threading.Thread(target=reader, args=(k,)) for k in range(n_readers)]
+    for t in ths:
+        t.start()
+    n = 0
+    now = 0.0
+    for (at, cnt) in bursts:
+        if at > now:
+            dsched.FAKE_TIME.sleep(at - now)
+            now = at
+        for _ in range(cnt):
+            r._receive_signal(QMI_SignalMessage(Addr("c", "p"), Addr("c", "$pubsub"), "sig", (n,)))
+            n += 1
+    guard = 0
+    while any(t.is_alive() for t in ths) and guard < 40:
+        dsched.FAKE_TIME.sleep(1.0)
+        guard += 1
+        if timeout is None:
+            r._receive_signal(QMI_SignalMessage(Addr("c", "p"), Addr("c", "$pubsub"), "late", (n,)))
+            n += 1
+    for t in ths:
+        t.join()
+    obs["results"] = {str(k): v for k, v in results.items()}
+    return obs
+
+
+def trace_labels(obs):
+    """events -> (labels of Blocking.v, final status per call id, arrivals list, python-side property complaints)"""
+    ev = obs["events"]
+    results = {int(k): tuple(v) for k, v in obs["results"].items()}
+    # last len event of each call that ended with the timeout error = the deadline test (BExpire)
+    last_len = {}
+    for i, e in enumerate(ev):
+        if e[0] == "L" and e[1] >= 0:
+            last_len[e[1]] = i
+    entered = set()
+    labels, arrivals, delivered, why = [], [], [], []
+    for i, e in enumerate(ev):
+        if e[0] == "A":
+            labels.append("BArrive %s" % cZ(e[2]))
+            arrivals.append(e[2])
+        elif e[0] == "L" and e[1] >= 0:
+            rid = e[1]
+            if rid not in entered:
+                entered.add(rid)
+                labels.append("BEnter %s" % cnat(rid))
+            elif results.get(rid) == ("timeout",) and last_len.get(rid) == i:
+                labels.append("BExpire %s" % cnat(rid))
+                if e[2] > 0:
+                    why.append("call %d ended with the timeout error although %d signal(s) were queued at its deadline test" % (rid, e[2]))
+            else:
+                labels.append("BWake %s" % cnat(rid))
+        elif e[0] == "D":
+            delivered.append((e[1], e[2], e[3]))
+    seqs = [d[2] for d in delivered]
+    if any(b <= a for a, b in zip(seqs, seqs[1:])):
+        why.append("signals were handed out in the order %r (a signal given twice, or an older one after a newer one)" % (seqs,))
+    for (rid, p, n) in delivered:
+        if not (0 <= n < len(arrivals)) or arrivals[n] != p:
+            why.append("call %d was handed payload %r numbered %d, the arrivals were %r" % (rid, p, n, arrivals))
+        if rid >= 0 and results.get(rid) != ("sig", p, n):
+            why.append("call %d took (%r, %d) from the queue but returned %r" % (rid, p, n, results.get(rid)))
+    fin = []
+    for rid in sorted(results):
+        x = results[rid]
+        fin.append("(%s, %s)" % (cnat(rid), "RTimedOut" if x == ("timeout",) else "RGot %s %s" % (cZ(x[1]), cN(x[2]))))
+    return labels, fin, arrivals, why
+
+
+def run_readers_traced(ck):
+    import random
+    import dsched
+    import qmi.core.pubsub, qmi.core.messaging, qmi.core.task  # noqa
+    rng = random.Random(ck.seed * 7919 + 17)
+    jobs, meta = [], []
+    shapes = [(2, 1, None, ((1.0, 2),)), (3, 1, 5.0, ((1.0, 2),)), (2, 2, 5.0, ((1.0, 3), (2.0, 1))),
+              (3, 2, None, ((0.0, 1), (1.0, 4))), (3, 1, 0.5, ((0.5, 2), (1.0, 1))), (2, 2, 0.5, ((0.25, 1), (0.5, 2), (0.75, 1)))]
+    reps = 8 if ck.tier == "quick" else 80
+    for sh in shapes:
+        for i in range(reps):
+            jobs.append((scenario_readers_traced, sh, dict(strategy="random" if i % 2 else "pct", seed=rng.randrange(1 << 30))))
+            meta.append(sh)
+    terms, tmeta = [], []
+    for sh, res in zip(meta, dsched.run_forked(jobs, nproc=16, wall_timeout=30)):
+        ck.count("readers-traced:%s" % res["status"])
+        if res["status"] != "ok":
+            ck.report("oracle:readers-traced",
+                      "C09 (several readers, blocking form) fails on the implementation: scenario ended with %s %s" % (
+                          res["status"], str(res.get("trace") or "")[:300]),
+                      {"readers_traced": True, "shape": sh, "schedule": res.get("choices")})
+            continue
+        labels, fin, arrivals, why = trace_labels(res["obs"])
+        ck.note_case(("readers-traced", sh, tuple(res.get("choices") or ())), len(arrivals) > 0 and len(fin) > 1)
+        ck.count("readers-traced:labels:%s" % ("0-15" if len(labels) <= 15 else "16-40" if len(labels) <= 40 else "41+"))
+        for w in why[:1]:
+            ck.report("oracle:readers-traced:" + w.split(" ")[0], "C09 (several readers, blocking form) fails on the implementation: " + w,
+                      {"readers_traced": True, "shape": sh, "schedule": res.get("choices"), "events": res["obs"]["events"]})
+        terms.append("(64%%nat, DiscardOld, %s, %s)" % (clist(labels), clist(fin)))
+        tmeta.append((sh, res, why))
+    bad = ck.run_model("C09.Corr", "check_trace", terms, "tcase", shard=100)
+    ck.coverage["blocking_traces_accepted"] = len(terms) - len(bad)
+    ck.coverage["blocking_traces_refused"] = len(bad)
+    for i in bad[:3]:
+        sh, res, why = tmeta[i]
+        at = ck.model_eval("C09.Corr", "trace_diag %s" % terms[i])
+        ck.report("corr:blocking-trace" + (":oracle-fails" if why else ""),
+                  "a recorded multi-reader schedule of get_next_signal is not a run of the Coq transition system C09.Blocking "
+                  "(first refused label / final status: %s)%s" % (str(at)[:80], (": " + why[0]) if why else " (property oracle passes on it)"),
+                  {"readers_traced": True, "shape": sh, "schedule": res.get("choices"), "events": res["obs"]["events"],
+                   "results": res["obs"]["results"], "broken": "correspondence C09.Corr.check_trace"},
+                  found_input=bool(why))
+
+
 def scenario_concurrent_arrivals(s, cap, pol, nthreads, per_thread):
     """H3: several threads deliver to one receiver at the same time (local publisher threads, the socket
     thread, ...); every source line of _receive_signal is a scheduling point."""
@@ -500,6 +661,7 @@ def run(ck):
     run_blocking(ck)
     run_task_drain(ck)
     run_readers(ck)
+    run_readers_traced(ck)
     run_concurrent(ck)
     cases = gen_cases(ck)
     terms, metas = [], []
